@@ -123,6 +123,9 @@ def generate(prop, seed, tier):
                     # *nonterminals of the other grammar* (legal: only terminal/terminal clashes are conflicts)
                     other_nts = [n for n in (nts2 if tag == 'a' else nts1) if n not in nts and n != 'S']
                     pool = ['t0', 't1', '<X,Y>', '<S,S>'] + other_nts
+                    if g.random() < 0.35:
+                        # labels that look like uniquified pair names, with gaps in the numbering
+                        pool = ['<X,Y,Z,W>_2', '<X,Y,Z,W>_1', '<X,Y,Z,W>_3', '<X,Y,Z,W>', '<S,S>_1', '<X,W>_2']
                     terms.append({'label': g.choice(pool) if g.random() < 0.6 else tag + 't', 'att': []})
                 rules.append({'lhs': g.choice(lhss), 'skel': si, 'labels': labs, 'terms': terms,
                               'edge_order': g.perm(len(sk['slots']) + len(terms)), 'node_order': g.perm(len(sk['nodes']))})
@@ -131,12 +134,18 @@ def generate(prop, seed, tier):
     r1, r2 = mk_rules(nts1, 'a'), mk_rules(nts2, 'b')
     return {'engine': 'conjoin', 'prop': prop, 'seed': seed, 'nts1': nts1, 'nts2': nts2, 'skels': skels, 'rules1': r1, 'rules2': r2,
             'signatures': g.random() < 0.85, 'conflict': g.random() < 0.12, 'share_objects': g.random() < 0.5,
-            'alloc': g.choice(['order', 'seq', 'reuse']), 'prereg1': g.random() < 0.3, 'prereg2': g.random() < 0.3}
+            'alloc': g.choice(['order', 'seq', 'reuse']), 'prereg1': g.random() < 0.3, 'prereg2': g.random() < 0.3,
+            # history: conjoin, remove a terminal edge from a right-hand side of an input grammar, conjoin the same objects again
+            'again': {'which': g.randrange(2), 'rule': g.randrange(64), 'edge': g.randrange(64)} if g.random() < 0.3 else None}
 
 
 def reducers(case):
     yield from list_reductions(case, ['rules1'])
     yield from list_reductions(case, ['rules2'])
+    if case.get('again'):
+        c = copy.deepcopy(case)
+        c['again'] = None
+        yield c
     for key in ('conflict', 'prereg1', 'prereg2', 'share_objects'):
         if case.get(key):
             c = copy.deepcopy(case)
@@ -286,124 +295,140 @@ def execute(case):
                 raise StopIteration
             if exc is not None:
                 V('conjoin-raised', ['ValueError'], f'conjoin_hrgs raised ValueError without a terminal conflict: {exc}')
-            # reference: conjoinable pairs
-            pairs = [(i, j) for i, (_, r1) in enumerate(info1) for j, (_, r2) in enumerate(info2) if ref_conjoinable(case, r1, r2)]
-            c.inc('pairs.conjoinable', len(pairs))
-            c.inc('pairs.total', len(info1) * len(info2))
-            rules = res.all_rules()
-            if len(rules) != len(pairs):
-                V('rule-count', ['more' if len(rules) > len(pairs) else 'fewer'], f'{len(rules)} conjoined rules, {len(pairs)} conjoinable pairs of rules')
-            existing = {el.name for el in h1.edge_labels()} | {el.name for el in h2.edge_labels()}
-            name_of = {}      # (l1,l2) -> result label
-            pair_of = {}      # result label name -> (l1,l2)
+            def verify(res):
+                # reference: conjoinable pairs
+                pairs = [(i, j) for i, (_, r1) in enumerate(info1) for j, (_, r2) in enumerate(info2) if ref_conjoinable(case, r1, r2)]
+                c.inc('pairs.conjoinable', len(pairs))
+                c.inc('pairs.total', len(info1) * len(info2))
+                rules = res.all_rules()
+                if len(rules) != len(pairs):
+                    V('rule-count', ['more' if len(rules) > len(pairs) else 'fewer'], f'{len(rules)} conjoined rules, {len(pairs)} conjoinable pairs of rules')
+                existing = {el.name for el in h1.edge_labels()} | {el.name for el in h2.edge_labels()}
+                name_of = {}      # (l1,l2) -> result label
+                pair_of = {}      # result label name -> (l1,l2)
 
-            def bind(pair, lab, where):
-                if not lab.is_nonterminal:
-                    V('pair-label', ['terminal'], f'{where}: paired label {lab.name} is terminal')
-                if pair in name_of and name_of[pair] != lab:
-                    V('pair-name', ['pair-has-two-names'], f'{pair} is called {name_of[pair].name} and {lab.name}')
-                if lab.name in pair_of and pair_of[lab.name] != pair:
-                    V('pair-name', ['name-not-unique'], f'{lab.name} stands for {pair_of[lab.name]} and {pair} ({where})')
-                name_of[pair] = lab
-                pair_of[lab.name] = pair
-                t1 = case['nts1'][pair[0]]
-                if [l.name for l in lab.type] != t1:
-                    V('pair-label', ['type'], f'{lab.name} has type {[l.name for l in lab.type]}, {pair[0]} has {t1}')
-            bind(('S', 'S'), res.start, 'start')
-            if case['signatures']:
-                bysig = {}
-                for r in rules:
-                    sg = sorted(e.label.name for e in r.rhs.edges() if e.label.name.startswith('sig_'))
-                    if len(sg) != 2:
-                        V('rule-terminals', ['signature'], f'conjoined rule carries terminals {sg} (expected the terminal edges of exactly one rule of each grammar)')
-                    key = (int(sg[0][5:]), int(sg[1][5:]))
-                    if key in bysig:
-                        V('rule-count', ['duplicate-pair'], f'rule pair {key} was conjoined twice')
-                    bysig[key] = r
-                if set(bysig) != set(pairs):
-                    V('rule-pairs', ['wrong-pairs'], f'conjoined pairs {sorted(bysig)} expected {sorted(pairs)}')
-                for (i, j), r in bysig.items():
-                    rule1, a1 = info1[i]
-                    rule2, a2 = info2[j]
-                    bind((a1['lhs'], a2['lhs']), r.lhs, f'lhs of pair {(i, j)}')
-                    if set(r.rhs.nodes()) != set(rule1.rhs.nodes()) or len(list(r.rhs.nodes())) != len(list(rule1.rhs.nodes())):
-                        V('rule-nodes', [], f'pair {(i, j)}: nodes differ from the source rules')
-                    if tuple(r.rhs.ext) != tuple(rule1.rhs.ext):
-                        V('rule-externals', [], f'pair {(i, j)}: externals differ')
-                    nte = {e.id: e for e in r.rhs.edges() if e.label.is_nonterminal}
-                    want = slot_pairs(case, a1, a2)
-                    if len(nte) != len(want) or set(nte) != {w[0] for w in want} or len([e for e in r.rhs.edges() if e.label.is_nonterminal]) != len(want):
-                        V('rule-nt-edges', ['count-or-ids'], f'pair {(i, j)}: nonterminal edges {sorted(nte)} expected {[w[0] for w in want]}')
-                    src = {e.id: e for e in rule1.rhs.edges()}
-                    for eid, l1, l2 in want:
-                        e = nte[eid]
-                        if tuple(e.nodes) != tuple(src[eid].nodes):
-                            V('rule-nt-edges', ['attachment'], f'pair {(i, j)} edge {eid}: attachment changed')
-                        bind((l1, l2), e.label, f'edge {eid} of pair {(i, j)}')
-                    ts = sorted((e.id, e.label.name) for e in r.rhs.edges() if e.label.is_terminal)
-                    wt = sorted((e.id, e.label.name) for rr in (rule1, rule2) for e in rr.rhs.edges() if e.label.is_terminal)
-                    if ts != wt:
-                        V('rule-terminals', ['not-both'], f'pair {(i, j)}: terminal edges {ts} expected {wt}')
-                c.inc('rules.checked', len(bysig))
-                if any(len(case['skels'][info1[i][1]['skel']]['slots']) >= 2 for i, j in pairs):
-                    c.inc('probe.pair-with>=2-nonterminal-edges')
-            for nm in pair_of:
-                if nm in existing:
-                    V('pair-name', ['collides-with-existing-label'], f'paired nonterminal {nm} has the name of a label of an input grammar')
-            natural = {}
-            for p in name_of:
-                natural.setdefault('<%s,%s>' % p, []).append(p)
-            if any(len(v) >= 2 for v in natural.values()):
-                c.inc('probe.name-clash')
-            if any(len(v) >= 3 for v in natural.values()):
-                c.inc('probe.name-clash-3way')
-            # derivation counts
-            memo = {}
+                def bind(pair, lab, where):
+                    if not lab.is_nonterminal:
+                        V('pair-label', ['terminal'], f'{where}: paired label {lab.name} is terminal')
+                    if pair in name_of and name_of[pair] != lab:
+                        V('pair-name', ['pair-has-two-names'], f'{pair} is called {name_of[pair].name} and {lab.name}')
+                    if lab.name in pair_of and pair_of[lab.name] != pair:
+                        V('pair-name', ['name-not-unique'], f'{lab.name} stands for {pair_of[lab.name]} and {pair} ({where})')
+                    name_of[pair] = lab
+                    pair_of[lab.name] = pair
+                    t1 = case['nts1'][pair[0]]
+                    if [l.name for l in lab.type] != t1:
+                        V('pair-label', ['type'], f'{lab.name} has type {[l.name for l in lab.type]}, {pair[0]} has {t1}')
+                bind(('S', 'S'), res.start, 'start')
+                if case['signatures']:
+                    bysig = {}
+                    for r in rules:
+                        sg = sorted(e.label.name for e in r.rhs.edges() if e.label.name.startswith('sig_'))
+                        if len(sg) != 2:
+                            V('rule-terminals', ['signature'], f'conjoined rule carries terminals {sg} (expected the terminal edges of exactly one rule of each grammar)')
+                        key = (int(sg[0][5:]), int(sg[1][5:]))
+                        if key in bysig:
+                            V('rule-count', ['duplicate-pair'], f'rule pair {key} was conjoined twice')
+                        bysig[key] = r
+                    if set(bysig) != set(pairs):
+                        V('rule-pairs', ['wrong-pairs'], f'conjoined pairs {sorted(bysig)} expected {sorted(pairs)}')
+                    for (i, j), r in bysig.items():
+                        rule1, a1 = info1[i]
+                        rule2, a2 = info2[j]
+                        bind((a1['lhs'], a2['lhs']), r.lhs, f'lhs of pair {(i, j)}')
+                        if set(r.rhs.nodes()) != set(rule1.rhs.nodes()) or len(list(r.rhs.nodes())) != len(list(rule1.rhs.nodes())):
+                            V('rule-nodes', [], f'pair {(i, j)}: nodes differ from the source rules')
+                        if tuple(r.rhs.ext) != tuple(rule1.rhs.ext):
+                            V('rule-externals', [], f'pair {(i, j)}: externals differ')
+                        nte = {e.id: e for e in r.rhs.edges() if e.label.is_nonterminal}
+                        want = slot_pairs(case, a1, a2)
+                        if len(nte) != len(want) or set(nte) != {w[0] for w in want} or len([e for e in r.rhs.edges() if e.label.is_nonterminal]) != len(want):
+                            V('rule-nt-edges', ['count-or-ids'], f'pair {(i, j)}: nonterminal edges {sorted(nte)} expected {[w[0] for w in want]}')
+                        src = {e.id: e for e in rule1.rhs.edges()}
+                        for eid, l1, l2 in want:
+                            e = nte[eid]
+                            if tuple(e.nodes) != tuple(src[eid].nodes):
+                                V('rule-nt-edges', ['attachment'], f'pair {(i, j)} edge {eid}: attachment changed')
+                            bind((l1, l2), e.label, f'edge {eid} of pair {(i, j)}')
+                        ts = sorted((e.id, e.label.name) for e in r.rhs.edges() if e.label.is_terminal)
+                        wt = sorted((e.id, e.label.name) for rr in (rule1, rule2) for e in rr.rhs.edges() if e.label.is_terminal)
+                        if ts != wt:
+                            V('rule-terminals', ['not-both'], f'pair {(i, j)}: terminal edges {ts} expected {wt}')
+                    c.inc('rules.checked', len(bysig))
+                    if any(len(case['skels'][info1[i][1]['skel']]['slots']) >= 2 for i, j in pairs):
+                        c.inc('probe.pair-with>=2-nonterminal-edges')
+                for nm in pair_of:
+                    if nm in existing:
+                        V('pair-name', ['collides-with-existing-label'], f'paired nonterminal {nm} has the name of a label of an input grammar')
+                natural = {}
+                for p in name_of:
+                    natural.setdefault('<%s,%s>' % p, []).append(p)
+                if any(len(v) >= 2 for v in natural.values()):
+                    c.inc('probe.name-clash')
+                if any(len(v) >= 3 for v in natural.values()):
+                    c.inc('probe.name-clash-3way')
+                # derivation counts
+                memo = {}
 
-            def cnt_ref(l1, l2, d):
-                if d == 0:
-                    return 0
-                k = (l1, l2, d)
-                if k not in memo:
-                    tot = 0
-                    for i, j in pairs:
-                        a1, a2 = info1[i][1], info2[j][1]
-                        if a1['lhs'] != l1 or a2['lhs'] != l2:
-                            continue
-                        p = 1
-                        for _, x1, x2 in slot_pairs(case, a1, a2):
-                            p *= cnt_ref(x1, x2, d - 1)
-                            if p == 0:
-                                break
-                        tot += p
-                    memo[k] = tot
-                return memo[k]
-            memo2 = {}
-
-            def cnt_res(lab, d):
-                if d == 0:
-                    return 0
-                k = (lab, d)
-                if k not in memo2:
-                    tot = 0
-                    for r in res.rules(lab):
-                        p = 1
-                        for e in r.rhs.edges():
-                            if e.label.is_nonterminal:
-                                p *= cnt_res(e.label, d - 1)
+                def cnt_ref(l1, l2, d):
+                    if d == 0:
+                        return 0
+                    k = (l1, l2, d)
+                    if k not in memo:
+                        tot = 0
+                        for i, j in pairs:
+                            a1, a2 = info1[i][1], info2[j][1]
+                            if a1['lhs'] != l1 or a2['lhs'] != l2:
+                                continue
+                            p = 1
+                            for _, x1, x2 in slot_pairs(case, a1, a2):
+                                p *= cnt_ref(x1, x2, d - 1)
                                 if p == 0:
                                     break
-                        tot += p
-                    memo2[k] = tot
-                return memo2[k]
-            for pair, lab in name_of.items():
-                for d in (1, 2, 3, 4):
-                    a, b = cnt_ref(pair[0], pair[1], d), cnt_res(lab, d)
-                    if a != b:
-                        V('derivation-count', ['depth%d' % d], f'{pair} alias {lab.name}: {b} derivations of depth <= {d}, {a} conjoinable pairs of derivations')
-                    if a > 0:
-                        c.inc('probe.derivations>0')
-            c.inc('counts.compared', len(name_of))
+                            tot += p
+                        memo[k] = tot
+                    return memo[k]
+                memo2 = {}
+
+                def cnt_res(lab, d):
+                    if d == 0:
+                        return 0
+                    k = (lab, d)
+                    if k not in memo2:
+                        tot = 0
+                        for r in res.rules(lab):
+                            p = 1
+                            for e in r.rhs.edges():
+                                if e.label.is_nonterminal:
+                                    p *= cnt_res(e.label, d - 1)
+                                    if p == 0:
+                                        break
+                            tot += p
+                        memo2[k] = tot
+                    return memo2[k]
+                for pair, lab in name_of.items():
+                    for d in (1, 2, 3, 4):
+                        a, b = cnt_ref(pair[0], pair[1], d), cnt_res(lab, d)
+                        if a != b:
+                            V('derivation-count', ['depth%d' % d], f'{pair} alias {lab.name}: {b} derivations of depth <= {d}, {a} conjoinable pairs of derivations')
+                        if a > 0:
+                            c.inc('probe.derivations>0')
+                c.inc('counts.compared', len(name_of))
+                return pairs, rules, pair_of
+            pairs, rules, pair_of = verify(res)
+            ag = case.get('again')
+            if ag:
+                h_, info_ = (h1, info1) if ag['which'] == 0 else (h2, info2)
+                cands = [(rule, e) for rule, _ in info_ for e in rule.rhs.edges() if e.label.is_terminal and not e.label.name.startswith('sig_')]
+                if cands:
+                    rule, e = cands[(ag['rule'] * 7 + ag['edge']) % len(cands)]
+                    rule.rhs.remove_edge(e)
+                    c.inc('hist.remove_edge-then-conjoin-again')
+                    try:
+                        res2 = F.conjoin_hrgs(h1, h2)
+                    except Exception as ex:
+                        V('conjoin-raised', ['again', type(ex).__name__], f'second conjoin_hrgs of the same grammars (after removing a terminal edge) raised {type(ex).__name__}: {ex}')
+                    verify(res2)
             nontrivial = len(pairs) >= 2
             counters = dict(c)
             log.add('ok', len(rules), sorted(pair_of))
